@@ -37,6 +37,12 @@ def dispatch (d : DS) (line : String) : DS × String :=
   | "C01" :: rest => let (s, o) := Driver.Chan.handle "C01" d.chan rest; ({ d with chan := s }, o)
   | "C02" :: rest => let (s, o) := Driver.Chan.handle "C02" d.chan rest; ({ d with chan := s }, o)
   | "C05" :: rest => let (s, o) := Driver.Chan.handle "C05" d.chan rest; ({ d with chan := s }, o)
+  | ["C06", "http", want, body, closed] =>
+    -- the HTTP `Connection: close` path on a channel that waits for pending writes, in real time
+    (d, if (closed.drop 7).toString != "1" then "specviol graceful close (HTTP Connection: close): the connection was not closed within 20 s"
+        else if (want.drop 5).toString != (body.drop 5).toString then
+          s!"specviol graceful close (HTTP Connection: close): the peer received {(body.drop 5).toString} of {(want.drop 5).toString} body bytes the handler had written before the transport was closed"
+        else "ok graceful")
   | "C06" :: rest => let (s, o) := Driver.Chan.handle "C06" d.chan rest; ({ d with chan := s }, o)
   | "C10" :: rest => let (s, o) := Driver.Chan.handle "C10" d.chan rest; ({ d with chan := s }, o)
   | "C11" :: "rf" :: rest => (d, Driver.C11.handle ("rf" :: rest))
